@@ -66,6 +66,10 @@ package main
 //	  x.Centroid() (the function itself, on the rescaled copy)  ↦ (← <name>_core x): the loops below the guard
 //	  return Point{X: c.X * kx, Y: c.Y * ky}                    ↦ pure (unscale kx ky c)
 //	  the rest of the guard is translated statement by statement
+//	in the origin guard `if ox, oy := centroidOrigin(…); ox != 0 || oy != 0 { … }` that precedes the range guard:
+//	  x.Centroid() / Centroid(q) (the function itself, on the translated copy) ↦ (← <name>_scaled x): the range guard and the loops below it
+//	  return Point{X: c.X + ox, Y: c.Y + oy}                    ↦ pure (unshift ox oy c)
+//	centroidAxisOrigin's body (compared as text)                ↦ pure v                  (over Rat every value is finite)
 //	op.Centroid, case geom.Polygon: `var A, xA, yA float64` + the last two statements of the clause = op_Centroid_core; the
 //	  statements before them = the inline guard: `kx, ky := 1., 1.` + the two axis-scale blocks (compared as text) ↦
 //	  kx := axisScale mx; ky := axisScale my;  c, err := Centroid(q) ↦ c := (← op_Centroid_core q);  return Point{…}, err ↦ unscale
@@ -102,12 +106,17 @@ func (fi fnInfo) pkg() string {
 var fns = []fnInfo{
 	{"area.go", "", "signedarea", "signedarea", false, ""},
 	{"op/properties.go", "", "area", "op_area", false, ""},
+	{"op/properties.go", "", "centroidAxisOrigin", "op_centroidAxisOrigin", false, "axisorigin"},
+	{"op/properties.go", "", "centroidOrigin", "op_centroidOrigin", false, ""},
 	{"op/properties.go", "", "Centroid", "op_Centroid", false, "opcentroid"},
 	{"op/properties.go", "", "Area", "op_Area_Polygon", false, "case:Polygon"},
 	{"op/properties.go", "", "Area", "op_Area_MultiPolygon", false, "case:MultiPolygon"},
 	{"area.go", "", "centroidAxisScale", "centroidAxisScale", false, "axisscale"},
 	{"area.go", "", "centroidScale", "centroidScale", false, ""},
 	{"area.go", "Polygon", "scaled", "polygon_scaled", false, ""},
+	{"area.go", "", "centroidAxisOrigin", "centroidAxisOrigin", false, "axisorigin"},
+	{"area.go", "", "centroidOrigin", "centroidOrigin", false, ""},
+	{"area.go", "Polygon", "translated", "polygon_translated", false, ""},
 	{"area.go", "Polygon", "Centroid", "polygon_Centroid", false, "centroid"},
 	{"similar.go", "", "similar", "similar", false, ""},
 	{"similar.go", "", "pointSimilar", "pointSimilar", false, ""},
@@ -149,6 +158,7 @@ type tr struct {
 	centroid bool              // the accumulator pattern of the centroid loops is active (acc stands for A, xA, yA)
 	loop     int               // 0: function level, 1: loop body / branch without exits, 2: body of a loop with return/continue
 	guard    bool              // translating the range guard of a centroid function (see translate)
+	self     string            // what the function's call of itself inside the guard being translated denotes (the code below that guard)
 	ctlNext  string            // in a loop body of kind 2: what `continue` and the end of the body yield
 }
 
@@ -789,7 +799,7 @@ func (t *tr) call(x *ast.CallExpr) string {
 		rt := t.typeOf(f.X)
 		if t.guard && f.Sel.Name == t.fi.name && rt == t.fi.recv && len(x.Args) == 0 {
 			// the call of the function itself on the rescaled copy: the guard does not fire again, the loops below it run
-			return "(← " + t.fi.lean + "_core " + t.expr(f.X, "") + ")"
+			return "(← " + t.self + " " + t.expr(f.X, "") + ")"
 		}
 		if fi := lookupFn(t.fi.pkg(), rt, f.Sel.Name); fi != nil {
 			args = append(args, t.expr(f.X, ""))
@@ -1065,7 +1075,7 @@ func (t *tr) axisGroup(ss []ast.Stmt) bool {
 }
 
 // Point{X: c.X * kx, Y: c.Y * ky} with c a centroid (FV × FV) and kx, ky float64 variables
-func (t *tr) isUnscale(e ast.Expr) (c, kx, ky string, ok bool) {
+func (t *tr) isUnscale(e ast.Expr, op token.Token) (c, kx, ky string, ok bool) {
 	lit, isLit := e.(*ast.CompositeLit)
 	if !isLit || typeName(lit.Type) != "Point" || len(lit.Elts) != 2 {
 		return
@@ -1076,7 +1086,7 @@ func (t *tr) isUnscale(e ast.Expr) (c, kx, ky string, ok bool) {
 			return "", "", false
 		}
 		b, ok := kv.Value.(*ast.BinaryExpr)
-		if !ok || b.Op != token.MUL {
+		if !ok || b.Op != op {
 			return "", "", false
 		}
 		s, ok := b.X.(*ast.SelectorExpr)
@@ -1201,7 +1211,12 @@ func isAccDecl(s ast.Stmt) bool {
 // It is NOT regenerated (its rescaling branch calls the function itself on a scaled copy; tied by the
 // correspondence run and by the model's theorems about centScale); only its shape is recognised so that the
 // loops below it can be cut out.
-func isCentroidGuard(s ast.Stmt) bool {
+func isCentroidGuard(s ast.Stmt) bool { return isGuardOf(s, "centroidScale") }
+
+// the origin guard that precedes it: `if ox, oy := centroidOrigin(...); <cond> { ...; return ... }`
+func isOriginGuard(s ast.Stmt) bool { return isGuardOf(s, "centroidOrigin") }
+
+func isGuardOf(s ast.Stmt, fn string) bool {
 	x, ok := s.(*ast.IfStmt)
 	if !ok || x.Init == nil || x.Else != nil || !endsInExit(x.Body.List) {
 		return false
@@ -1211,7 +1226,7 @@ func isCentroidGuard(s ast.Stmt) bool {
 		return false
 	}
 	c, ok := in.Rhs[0].(*ast.CallExpr)
-	return ok && isIdent(c.Fun, "centroidScale")
+	return ok && isIdent(c.Fun, fn)
 }
 
 // block translates statements; `tail` is what ends the block when no return does ("" = must return)
@@ -1372,23 +1387,31 @@ func (t *tr) block(ss []ast.Stmt, ind string, tail string, out *strings.Builder)
 			if t.guard && t.fi.ret == "opcentroid" && len(x.Results) == 2 && t.loop == 0 {
 				// return geom.Point{X: c.X * kx, Y: c.Y * ky}, err
 				if id, ok := x.Results[1].(*ast.Ident); ok && t.vars[id.Name] == "error" {
-					if c, kx, ky, ok := t.isUnscale(x.Results[0]); ok {
+					if c, kx, ky, ok := t.isUnscale(x.Results[0], token.MUL); ok && strings.HasSuffix(t.self, "_core") {
 						fmt.Fprintf(out, "%spure (unscale %s %s %s)\n", ind, kx, ky, c)
 						return
 					}
+					if c, ox, oy, ok := t.isUnscale(x.Results[0], token.ADD); ok && strings.HasSuffix(t.self, "_scaled") {
+						fmt.Fprintf(out, "%spure (unshift %s %s %s)\n", ind, ox, oy, c)
+						return
+					}
 				}
-				xfail("the range guard returns something else than geom.Point{X: c.X * kx, Y: c.Y * ky}, err")
+				xfail("the guard returns something else than geom.Point{X: c.X * kx, Y: c.Y * ky}, err (range guard) / geom.Point{X: c.X + ox, Y: c.Y + oy}, err (origin guard)")
 			}
 			if len(x.Results) != 1 {
 				xfail("return with %d results", len(x.Results))
 			}
 			if t.guard {
 				// return Point{X: c.X * kx, Y: c.Y * ky} with c the centroid of the rescaled copy
-				if c, kx, ky, ok := t.isUnscale(x.Results[0]); ok && t.loop == 0 {
+				if c, kx, ky, ok := t.isUnscale(x.Results[0], token.MUL); ok && t.loop == 0 && strings.HasSuffix(t.self, "_core") {
 					fmt.Fprintf(out, "%spure (unscale %s %s %s)\n", ind, kx, ky, c)
 					return
 				}
-				xfail("the range guard returns something else than Point{X: c.X * kx, Y: c.Y * ky}")
+				if c, ox, oy, ok := t.isUnscale(x.Results[0], token.ADD); ok && t.loop == 0 && strings.HasSuffix(t.self, "_scaled") {
+					fmt.Fprintf(out, "%spure (unshift %s %s %s)\n", ind, ox, oy, c)
+					return
+				}
+				xfail("the guard returns something else than Point{X: c.X * kx, Y: c.Y * ky} (range guard) / Point{X: c.X + ox, Y: c.Y + oy} (origin guard)")
 			}
 			want := resultType[t.fi.lean]
 			if got := t.typeOf(x.Results[0]); got != "" && got != want && elemType[got] != elemType[want] {
@@ -1472,7 +1495,7 @@ func (t *tr) assign(x *ast.AssignStmt, ind string, out *strings.Builder) {
 			if _, hides := t.vars[c.Name]; hides || c.Name == "_" || e.Name == "_" || c.Name == e.Name {
 				xfail("targets of `c, err := %s(q)`", t.fi.name)
 			}
-			fmt.Fprintf(out, "%slet %s := (← %s_core %s)\n", ind, c.Name, t.fi.lean, t.expr(call.Args[0], ""))
+			fmt.Fprintf(out, "%slet %s := (← %s %s)\n", ind, c.Name, t.self, t.expr(call.Args[0], ""))
 			t.vars[c.Name], t.vars[e.Name] = "centroid", "error"
 			return
 		}
@@ -1878,11 +1901,23 @@ func translateOpCentroid(fi fnInfo, fd *ast.FuncDecl) string {
 	core := fmt.Sprintf("/-- %s: %s on a Polygon, below its range guard -/\ndef %s_core (%s : %s) : Go.M %s := do\n%s\n",
 		fi.file, fi.name, fi.lean, g, t.leanType("Polygon"), t.leanType("centroid"), body.String())
 	// the Polygon case itself: the range guard, then the loop
-	t2 := &tr{fi: fi, vars: map[string]string{g: "Polygon"}, frozen: map[string]bool{}, guard: true}
+	if n < 3 || !isOriginGuard(clause.Body[0]) {
+		xfail("case geom.Polygon does not begin with an origin guard `if ox, oy := centroidOrigin(…); … { …; return … }`")
+	}
+	for _, st := range clause.Body[1 : n-2] {
+		if isOriginGuard(st) {
+			xfail("a second origin guard")
+		}
+	}
+	t2 := &tr{fi: fi, vars: map[string]string{g: "Polygon"}, frozen: map[string]bool{}, guard: true, self: fi.lean + "_core"}
 	var full strings.Builder
-	t2.block(clause.Body[:n-2], "  ", "pure (← "+fi.lean+"_core "+g+")", &full)
-	return core + fmt.Sprintf("/-- %s: %s on a Polygon (its call of itself inside the range guard is the function below the guard) -/\ndef %s (%s : %s) : Go.M %s := do\n%s",
-		fi.file, fi.name, fi.lean, g, t.leanType("Polygon"), t.leanType("centroid"), full.String())
+	t2.block(clause.Body[1:n-2], "  ", "pure (← "+fi.lean+"_core "+g+")", &full)
+	t3 := &tr{fi: fi, vars: map[string]string{g: "Polygon"}, frozen: map[string]bool{}, guard: true, self: fi.lean + "_scaled"}
+	var top strings.Builder
+	t3.block(clause.Body[:1], "  ", "pure (← "+fi.lean+"_scaled "+g+")", &top)
+	return core + fmt.Sprintf("/-- %s: %s on a Polygon below its origin guard: the range guard (its call of itself is the loop below it), then the loop -/\ndef %s_scaled (%s : %s) : Go.M %s := do\n%s\n",
+		fi.file, fi.name, fi.lean, g, t.leanType("Polygon"), t.leanType("centroid"), full.String()) + fmt.Sprintf("/-- %s: %s on a Polygon (its call of itself inside the origin guard is the function below that guard) -/\ndef %s (%s : %s) : Go.M %s := do\n%s",
+		fi.file, fi.name, fi.lean, g, t.leanType("Polygon"), t.leanType("centroid"), top.String())
 }
 
 func srcOf(n ast.Node) string {
@@ -2088,6 +2123,20 @@ func translate(fi fnInfo, fd *ast.FuncDecl) (text string) {
 	case len(rn) != 0:
 		xfail("named results")
 	}
+	if fi.ret == "axisorigin" {
+		// centroidAxisOrigin: one statement group, compared as text; over Rat every value is finite
+		want := []string{"if math.IsInf(v, 0) || math.IsNaN(v) {\n\treturn 0\n}", "return v"}
+		if len(params) != 1 || t.vars["v"] != "float64" || rt != "float64" || len(fd.Body.List) != len(want) {
+			xfail("signature or length of the body")
+		}
+		for i, w := range want {
+			if got := srcOf(fd.Body.List[i]); got != w {
+				xfail("statement %d is `%s`", i+1, got)
+			}
+		}
+		resultType[fi.lean] = rt
+		return fmt.Sprintf("/-- %s: %s (one statement group, see extract.go: a Rat is finite) -/\ndef %s (v : Rat) : Go.M Rat := do\n  pure v\n", fi.file, fi.name, fi.lean)
+	}
 	if fi.ret == "axisscale" {
 		// centroidAxisScale: one statement group, compared as text; `Frexp`/`Ldexp` over Rat is the model's pow2Floor
 		want := []string{"if (m >= 0x1p300 || (m <= 0x1p-300 && m > 0)) && !math.IsInf(m, 0) {\n\t_, e := math.Frexp(m)\n\treturn math.Ldexp(1, e-1)\n}", "return 1"}
@@ -2139,17 +2188,22 @@ func translate(fi fnInfo, fd *ast.FuncDecl) (text string) {
 	stmts := fd.Body.List
 	if fi.ret == "centroid" {
 		// the loops below the range guard are the function `<name>_core`
-		if len(stmts) == 0 || !isCentroidGuard(stmts[0]) {
-			xfail("does not begin with a range guard `if … := centroidScale(…); … { …; return … }`")
+		if len(stmts) < 2 || !isOriginGuard(stmts[0]) || !isCentroidGuard(stmts[1]) {
+			xfail("does not begin with an origin guard `if … := centroidOrigin(…); … { …; return … }` and a range guard `if … := centroidScale(…); … { …; return … }`")
 		}
 		saved := t.save()
-		t.block(stmts[1:], "  ", "", &body)
+		t.block(stmts[2:], "  ", "", &body)
 		core := fmt.Sprintf("/-- %s: %s below its range guard -/\ndef %s_core %s%s : Go.M %s := do\n%s\n", fi.file, rn, fi.lean, hdr, strings.Join(params, " "), t.leanType(rt), body.String())
 		// the function itself: the guard, then the loops
-		t.vars, t.centroid, t.guard = saved, false, true
+		t.vars, t.centroid, t.guard, t.self = saved, false, true, fi.lean+"_core"
+		saved = t.save()
 		var full strings.Builder
-		t.block(stmts[:1], "  ", "pure (← "+fi.lean+"_core "+recvName+")", &full)
-		return core + fmt.Sprintf("/-- %s: %s (its call of itself inside the range guard is the function below the guard) -/\ndef %s %s%s : Go.M %s := do\n%s", fi.file, rn, fi.lean, hdr, strings.Join(params, " "), t.leanType(rt), full.String())
+		t.block(stmts[1:2], "  ", "pure (← "+fi.lean+"_core "+recvName+")", &full)
+		scaled := fmt.Sprintf("/-- %s: %s below its origin guard: the range guard (its call of itself is the loops below it), then the loops -/\ndef %s_scaled %s%s : Go.M %s := do\n%s\n", fi.file, rn, fi.lean, hdr, strings.Join(params, " "), t.leanType(rt), full.String())
+		t.vars, t.self = saved, fi.lean+"_scaled"
+		var top strings.Builder
+		t.block(stmts[:1], "  ", "pure (← "+fi.lean+"_scaled "+recvName+")", &top)
+		return core + scaled + fmt.Sprintf("/-- %s: %s (its call of itself inside the origin guard is the function below that guard) -/\ndef %s %s%s : Go.M %s := do\n%s", fi.file, rn, fi.lean, hdr, strings.Join(params, " "), t.leanType(rt), top.String())
 	}
 	t.block(stmts, "  ", "", &body)
 	return fmt.Sprintf("/-- %s: %s -/\ndef %s %s%s : Go.M %s := do\n%s", fi.file, rn, fi.lean, hdr, strings.Join(params, " "), t.leanType(rt), body.String())
